@@ -119,3 +119,11 @@ def sig_structure(alg_name, key_id, digest_bstr):
 
 def auth_block(alg_name, key_id, signature):
     return ENC(TAG(18, [ENC(protected_header(alg_name, key_id)), {}, None, signature]))
+
+
+# ---- C05: external artifacts ---------------------------------------------------------------------------
+def hash_by_name(alg_name, data):
+    """Digest of `data` under a description-language algorithm name (cose-alg-sha-256, ...)."""
+    return (HASH("sha256", 32, data) if alg_name == "cose-alg-sha-256" else HASH("shake128", 16, data) if alg_name == "cose-alg-shake128"
+            else HASH("sha384", 48, data) if alg_name == "cose-alg-sha-384" else HASH("sha512", 64, data) if alg_name == "cose-alg-sha-512"
+            else HASH("shake256", 32, data))
